@@ -342,7 +342,9 @@ func (s *muxerStream) handleMediaPlaylist(w http.ResponseWriter, r *http.Request
 						return nil
 					}
 
-					if s.hasContent() && s.hasPart(msnint, partint) {
+					// without _HLS_part the request is for the complete segment
+					if s.hasContent() &&
+						((part != "" && s.hasPart(msnint, partint)) || (part == "" && msnint < s.nextSegmentID)) {
 						break
 					}
 
